@@ -9,6 +9,8 @@ import (
 	"fmt"
 	"go/types"
 	"strings"
+	"sync"
+	"sync/atomic"
 
 	"golang.org/x/tools/go/ssa"
 )
@@ -27,6 +29,33 @@ type Chan struct {
 	closed  bool
 	closeVC []int
 	recvVC  []int
+	site    string // creation site file:line:col relative to the repo ("" for context Done channels)
+}
+
+// Channels that are the target of a non-blocking send (a select with a send
+// case and a default) are "arrival sensitive": whether the send succeeds
+// depends on a receiver having parked already, so parking on such a channel is
+// made a transition of its own (recvArrive). The set of creation sites is
+// discovered while an entry runs; finding a new one restarts the entry's
+// exploration with the enlarged set (runEntry).
+var arrivalSites sync.Map // creation site -> bool
+var arrivalNew int64
+
+func arrivalSensitive(c *Chan) bool {
+	if c == nil || c.site == "" {
+		return false
+	}
+	_, ok := arrivalSites.Load(c.site)
+	return ok
+}
+
+func markArrivalSensitive(c *Chan) {
+	if c == nil || c.site == "" {
+		return
+	}
+	if _, loaded := arrivalSites.LoadOrStore(c.site, true); !loaded {
+		atomic.AddInt64(&arrivalNew, 1)
+	}
 }
 
 func (ex *Exec) newChan(capacity int) *Chan {
@@ -152,8 +181,31 @@ func chid(ch *Chan) int {
 	return ch.id
 }
 
+// A goroutine becomes a parked receiver (which is what enables unbuffered
+// senders, and what a non-blocking send looks for) only by a transition of
+// its own: "arriving" at the receive is a visible operation on the channel.
+// Without it, registering as a receiver would be a side effect of whatever
+// transition came before (a goroutine start, say), invisible to the
+// partial-order reduction.
+func (g *G) recvArrive(chans []*Chan) {
+	var objs []interface{}
+	for _, c := range chans {
+		if c != nil && arrivalSensitive(c) {
+			objs = append(objs, c)
+		}
+	}
+	if len(objs) == 0 {
+		return
+	}
+	g.visible(&pendOp{kind: "recv-arrive", extra: objs, enabled: alwaysEnabled})
+	g.trace("recv-arrive")
+}
+
 func (g *G) chanRecv(ch *Chan) (value, bool) {
 	g.handed = false
+	if ch != nil && !canRecv(ch) {
+		g.recvArrive([]*Chan{ch})
+	}
 	g.visible(&pendOp{kind: "recv", obj: &recvSet{chans: []*Chan{ch}, cases: []int{0}}, enabled: func() bool { return g.handed || canRecv(ch) }})
 	g.trace("recv ch%d", chid(ch))
 	if g.handed {
@@ -226,6 +278,16 @@ func (g *G) selectOp(fr *frame, instr *ssa.Select) value {
 		return r
 	}
 	g.handed = false
+	if !instr.Blocking {
+		for _, c := range cases {
+			if c.send {
+				markArrivalSensitive(c.ch)
+			}
+		}
+	}
+	if instr.Blocking && len(set.chans) > 0 && len(ready()) == 0 {
+		g.recvArrive(set.chans)
+	}
 	var sendChans []interface{}
 	for _, c := range cases {
 		if c.send && c.ch != nil {
@@ -608,4 +670,10 @@ func (g *G) mapAccess(m *omap, write bool) {
 	if write {
 		g.ex.heapVersion++
 	}
+}
+
+func arrivalSiteList() []string {
+	var out []string
+	arrivalSites.Range(func(k, _ interface{}) bool { out = append(out, k.(string)); return true })
+	return out
 }
